@@ -426,7 +426,9 @@ class FileWalk:
                     p = self.parent[p]
                     if isinstance(p, ast.Call) and (dotted(p.func).startswith("os.path.") or dotted(p.func) in ("os.rename", "os.replace", "shutil.move", "shutil.copy", "os.makedirs")):
                         path_use = True
-                if path_use and isinstance(s, ast.Expr):
+                # (an expression statement, or the test of an if / while: the answer of the file system about a name in the log directory;
+                #  implicit flows through that truth value are not tracked)
+                if path_use and (isinstance(s, ast.Expr) or (isinstance(s, (ast.If, ast.While)) and any(x is n for x in ast.walk(s.test)))):
                     worst = "PathOnly"
                     continue
                 return "Flows"
